@@ -60,6 +60,16 @@ fn durations(r: &mut Rng) -> Vec<Duration> {
         Duration::from_secs(3600),
         Duration::from_nanos(1_499_999),
         Duration::from_nanos(2_345_670_000),
+        // long durations with a millisecond part (single precision would lose it), and the top of the domain
+        Duration::from_millis(18_017_001),
+        Duration::from_millis(86_400_000 * 30 + 1),
+        Duration::new(u32::MAX as u64, 999_500_000),
+        Duration::from_secs(u64::MAX),
+        Duration::new(u64::MAX, 999_000_000),
+        Duration::new(u64::MAX, 999_499_999),
+        Duration::new(u64::MAX, 999_500_000),
+        Duration::new(u64::MAX, 999_999_998),
+        Duration::MAX,
     ];
     for _ in 0..6 {
         v.push(Duration::from_nanos(r.next_u64() % 10_000_000_000_000));
@@ -67,7 +77,7 @@ fn durations(r: &mut Rng) -> Vec<Duration> {
     v
 }
 
-const STRS: &[&str] = &["foo", "foo bar", "a\tb", "Ünïcödé/ß €.mp3", "x", "dir/sub dir/file name.flac", "日本語 😀"];
+const STRS: &[&str] = &["foo", "foo bar", "a\tb", "Ünïcödé/ß €.mp3", "x", "dir/sub dir/file name.flac", "日本語 😀", "", " ", "/", "dir/", "Artist/Album/", "a//", "./", "trailing blank ", " leading blank", "UPPER", "0", "-1", "file.mp3/"];
 
 fn parse_dec(s: &[u8]) -> Option<u128> {
     if s.is_empty() || !s.iter().all(|b| b.is_ascii_digit()) || (s.len() > 1 && s[0] == b'0') {
@@ -98,7 +108,10 @@ fn check_secs(arg: &[u8], d: Duration) -> Result<(), String> {
     let ns = parse_secs(arg).ok_or_else(|| format!("{:?} is not a plain decimal number of seconds", String::from_utf8_lossy(arg)))?;
     let want = d.as_nanos();
     let diff = if ns > want { ns - want } else { want - ns };
-    if diff > 500_000 + 1_000 {
+    // half a millisecond of rounding (+ 1 us); beyond 2^43 s (278 000 years) a double - the type MPD itself parses the
+    // number into - no longer resolves milliseconds, so one unit in its last place is allowed there instead
+    let ulp = want >> 52;
+    if diff > (500_000 + 1_000).max(ulp) {
         return Err(format!("{:?} is {} ns away from {:?} (more than the documented millisecond rounding)", String::from_utf8_lossy(arg), diff, d));
     }
     Ok(())
@@ -269,7 +282,10 @@ pub fn all_cases(seed: u64) -> Vec<Case> {
         case!(o, "SubscribeToChannel", "subscribe", vec![s(st)], b, move || c::SubscribeToChannel(st).command());
         case!(o, "UnsubscribeFromChannel", "unsubscribe", vec![s(st)], b, move || c::UnsubscribeFromChannel(st).command());
         case!(o, "GetPlaylist", "listplaylistinfo", vec![s(st)], b, move || c::GetPlaylist(st).command());
-        case!(o, "ListAllIn::directory", "listallinfo", vec![s(st)], b, move || c::ListAllIn::directory(st).command());
+        // (the empty directory IS the root, for which the argument may be omitted or sent empty: not judged)
+        if !st.is_empty() {
+            case!(o, "ListAllIn::directory", "listallinfo", vec![s(st)], b, move || c::ListAllIn::directory(st).command());
+        }
         case!(o, "Update::uri", "update", vec![s(st)], b, move || c::Update::new().uri(st).command());
         case!(o, "Rescan::uri", "rescan", vec![s(st)], b, move || c::Rescan::new().uri(st).command());
         case!(o, "Add::uri", "addid", vec![s(st)], b, move || c::Add::uri(st).command());
